@@ -6,8 +6,9 @@ import GohbaseVerif.Gen.Exits
 Model: `Model/Conn.lean` (one region connection as a transition system over observable events).
 All theorems quantify over every reachable state, i.e. over every action sequence: every position
 of the failure, every initiator (`write`/`arm` error of the writer or of a direct sender, `read`
-error / bad header / unexpected id / server-side `connErr` exception seen by the reader, `clear`
-error, external `close`, `timeout`) and every interleaving.
+error / bad header / unexpected id / server-side `connErr` exception seen by the reader — in a
+response header or inside a decoded multi-response (`Frame.fatal`) —, `clear` error, external
+`close`, `timeout`) and every interleaving.
 -/
 namespace GV.Conn
 
@@ -167,6 +168,147 @@ theorem refused_excluded_when_ctx_ended {s : St} {c : Nat} (hd : s.done = true) 
 example : ∃ s, run (init 2) [.queueDirect 1, .readErr] = some s ∧ s.done = true ∧ 2 ∉ s.handed ∧
     2 ∉ s.ctxDone := by
   refine ⟨_, rfl, ?_⟩
+  decide
+
+/-- A multi-response that decodes, but in which the server says — for a whole region or for a
+single action — that it is not in service (some call's result is `connErr`: `Frame.fatal`), is
+dealt with like such an exception in a response header. When the reader can settle the in-flight
+counter at once and other requests are still in flight, all of it happens within the `read` event:
+every call of the multi gets what the response says about it (exactly one result each), then the
+connection is failed — `done`, nothing left registered or queued, the reader gone — and every
+*other* outstanding request (registered, or still waiting to be batched) is completed with a
+connection-level error, exactly once. Otherwise the reader is parked with the frame in its hand
+(waiting for `inFlightM` behind a sender that is arming the read deadline, or inside its own
+clearing `SetReadDeadline`), nothing has been delivered yet, and
+`server_exception_in_multi_not_forgotten` below says that it ends the same way. -/
+theorem server_exception_in_multi_fails_connection {q : Nat} {s s' : St} {id : Nat} {cs : List Nat}
+    {rs : List (Nat × Res)} (h : Reachable q s)
+    (hl : lookupSent s id = some (.multi cs))
+    (hf : rs.any (fun p => p.2 == .connErr) = true)
+    (hs : step s (.read id (.perCall rs)) = some s') :
+    (s'.done = false ∧ s'.reader.held = some (id, .multi cs, .perCall rs) ∧
+      s'.delivered = s.delivered) ∨
+    (s'.done = true ∧ s'.sent = [] ∧ s'.offered = [] ∧ s'.reader = .exited ∧
+      s'.delivered =
+        s.delivered ++ frameDlv id (.multi cs) (.perCall rs) ++ failDlv (eraseSent s id) ∧
+      (∀ c ∈ cs, deliveredCount s' c = 1 ∧
+        Dlv.mk c (((rs.find? (·.1 == c)).map (·.2)).getD .retryable) (some id) ∈ s'.delivered) ∧
+      (∀ c, (c ∈ outstanding s ∧ c ∉ cs) ∨ c ∈ s.offered →
+        deliveredCount s' c = 1 ∧ Dlv.mk c .connErr none ∈ s'.delivered)) := by
+  have hfat : (Frame.perCall rs).fatal = true := hf
+  have g := good_reachable h
+  have hnd := (gr_reachable h).go.idsNodup
+  have hone := at_most_once (reachable_step h hs)
+  have key : (s'.done = false ∧ s'.reader.held = some (id, .multi cs, .perCall rs) ∧
+        s'.delivered = s.delivered) ∨
+      (s'.done = true ∧ s'.sent = [] ∧ s'.offered = [] ∧ s'.reader = .exited ∧
+        s'.delivered =
+          s.delivered ++ frameDlv id (.multi cs) (.perCall rs) ++ failDlv (eraseSent s id)) := by
+    simp only [step] at hs
+    split at hs
+    · cases hs
+    · rename_i hr
+      have hr : s.reader = .reading := by simpa using hr
+      -- the reader is parked in `Read`, so the connection has not failed yet
+      have hd : s.done = false := by
+        cases hd : s.done
+        · rfl
+        · exact absurd hr (g.dr hd)
+      simp only [hl] at hs
+      split at hs
+      · injection hs with hs; subst hs
+        exact Or.inl ⟨hd, rfl, rfl⟩
+      · injection hs with hs; subst hs
+        rw [readerAtM_eq, readerAtN_fatal (s := eraseSent s id) (ctxEnded_multi _ _) hfat hd]
+        split
+        · exact Or.inl ⟨hd, rfl, rfl⟩
+        · exact Or.inr ⟨rfl, rfl, rfl, rfl, rfl⟩
+  rcases key with k | ⟨k1, k2, k3, k4, k5⟩
+  · exact Or.inl k
+  · refine Or.inr ⟨k1, k2, k3, k4, k5, ?_, ?_⟩
+    · intro c hc
+      have hm : Dlv.mk c (((rs.find? (·.1 == c)).map (·.2)).getD .retryable) (some id) ∈ s'.delivered := by
+        rw [k5]
+        exact List.mem_append_left _ (List.mem_append_right _ (List.mem_map.2 ⟨c, hc, rfl⟩))
+      have : 0 < deliveredCount s' c :=
+        List.length_pos_of_mem (List.mem_filter.2 ⟨hm, by simp⟩)
+      have := hone c
+      exact ⟨by omega, hm⟩
+    · intro c hc
+      have hm : Dlv.mk c .connErr none ∈ s'.delivered := by
+        rw [k5]
+        refine List.mem_append_right _ ?_
+        rcases hc with ⟨ho, hn⟩ | ho
+        · exact mem_failDlv_sent (outstanding_erase hnd hl ho hn)
+        · exact mem_failDlv_offered (s := eraseSent s id) ho
+      have : 0 < deliveredCount s' c :=
+        List.length_pos_of_mem (List.mem_filter.2 ⟨hm, by simp⟩)
+      have := hone c
+      exact ⟨by omega, hm⟩
+
+/-- The reader does not forget such a frame: from one event to the next — whatever the event —
+it still holds the multi with its response, or the connection has been failed. (It lets go of it
+only by dealing with it — `clear` returning, or the hand-off of `inFlightM` when the arming sender
+is through — and that fails the connection; the multi's own context never ends.) -/
+theorem server_exception_in_multi_not_forgotten {q : Nat} {s s' : St} {a : Act} {id : Nat}
+    {cs : List Nat} {f : Frame} (_h : Reachable q s)
+    (hh : s.reader.held = some (id, .multi cs, f)) (hf : f.fatal = true)
+    (hs : step s a = some s') :
+    s'.reader.held = some (id, .multi cs, f) ∨ s'.done = true :=
+  held_fatal_step hh hf hs
+
+/-- The multi [1] and the multi [2, 3] are outstanding, a third multi [4] is being written: the
+response to [2, 3] says "server stopped" for action 2 and answers action 3. 2 and 3 get their own
+results, 1 and 4 the connection-level error; the connection is done and the write of the third
+multi can only fail … -/
+example : ∃ s, run (init 2) [.queueBatched 1, .queueBatched 2, .queueBatched 3,
+      .write .writer true .ok, .arm .writer .ok, .write .writer true .ok, .arm .writer .ok,
+      .queueBatched 4, .read 2 (.perCall [(2, .connErr), (3, .ok)])] = some s ∧
+    s.done = true ∧ s.sent = [] ∧ s.reader = .exited ∧
+    s.delivered = [⟨2, .connErr, some 2⟩, ⟨3, .ok, some 2⟩, ⟨1, .connErr, none⟩,
+      ⟨4, .connErr, none⟩] ∧
+    step s (.write .writer true .ok) = none := by
+  refine ⟨_, rfl, ?_⟩
+  decide
+
+/-- … which completes nothing a second time and leaves everything at rest; a new call is refused -/
+example : ∃ s, run (init 2) [.queueBatched 1, .queueBatched 2, .queueBatched 3,
+      .write .writer true .ok, .arm .writer .ok, .write .writer true .ok, .arm .writer .ok,
+      .queueBatched 4, .read 2 (.perCall [(2, .connErr), (3, .ok)]), .write .writer true .err,
+      .queueDirect 6] = some s ∧
+    s.done = true ∧ quiescent s = true ∧
+    s.delivered = [⟨2, .connErr, some 2⟩, ⟨3, .ok, some 2⟩, ⟨1, .connErr, none⟩,
+      ⟨4, .connErr, none⟩, ⟨6, .connErr, none⟩] := by
+  refine ⟨_, rfl, ?_⟩
+  decide
+
+/-- the hypotheses of `server_exception_in_multi_fails_connection` are satisfiable, in its second
+case (the connection is failed within the `read` event) … -/
+example : ∃ s s', Reachable 2 s ∧ lookupSent s 2 = some (.multi [2, 3]) ∧
+    step s (.read 2 (.perCall [(2, .connErr), (3, .ok)])) = some s' ∧ s'.done = true ∧
+    outstanding s = [1, 2, 3, 4] ∧ s.offered = [] ∧ deliveredCount s' 1 = 1 ∧
+    deliveredCount s' 4 = 1 := by
+  refine ⟨_, _, ⟨[.queueBatched 1, .queueBatched 2, .queueBatched 3,
+      .write .writer true .ok, .arm .writer .ok, .write .writer true .ok, .arm .writer .ok,
+      .queueBatched 4], rfl⟩, ?_, rfl, ?_⟩
+  · decide
+  · decide
+
+/-- … and in its first: the multi is the only outstanding request, so the reader first clears the
+read deadline with the frame in its hand (nothing delivered yet); `clear` then delivers and fails
+the connection (`server_exception_in_multi_not_forgotten`) — here with the exception of a whole
+region (both calls `connErr`). -/
+example : ∃ s s' s'', run (init 2) [.queueBatched 1, .queueBatched 2, .queueBatched 3,
+      .write .writer true .ok, .arm .writer .ok, .write .writer true .ok, .arm .writer .ok,
+      .read 1 (.perCall [(1, .nsre)])] = some s ∧
+    step s (.read 2 (.perCall [(2, .connErr), (3, .connErr)])) = some s' ∧
+    step s' (.clear .ok) = some s'' ∧
+    lookupSent s 2 = some (.multi [2, 3]) ∧
+    s'.done = false ∧ s'.delivered = s.delivered ∧
+    s'.reader.held = some (2, .multi [2, 3], .perCall [(2, .connErr), (3, .connErr)]) ∧
+    s''.done = true ∧ s''.reader = .exited ∧
+    s''.delivered = [⟨1, .nsre, some 1⟩, ⟨2, .connErr, some 2⟩, ⟨3, .connErr, some 2⟩] := by
+  refine ⟨_, _, _, rfl, rfl, rfl, ?_⟩
   decide
 
 /-- position of the first occurrence -/
